@@ -317,11 +317,11 @@ func coqDocs(docs []qdoc) string {
 const itemSel = `_docID name cat qty price ok`
 
 type queryWorld struct {
-	x     *Nd
-	ctx   context.Context
-	docs  []qdoc
-	byID  map[string]int
-	col   string
+	x    *Nd
+	ctx  context.Context
+	docs []qdoc
+	byID map[string]int
+	col  string
 }
 
 func (w *queryWorld) run(args string) ([]int, string) {
